@@ -63,6 +63,7 @@ let civil (sec : int) =
 
 (* the two built-in formatters for the threaded scenarios (seq mode uses the oracle lines) *)
 let fmt_line fmt level srcline tid sec nsec (payload : int list) : int list =
+  if fmt = 2 then payload else
   if fmt = 0 then str_bytes (Printf.sprintf "%s|c16_src.c:%d - " (level_name level) srcline) @ payload @ [10]
   else begin
     let (y, mo, d, hh, mi, ss) = civil sec in
@@ -85,7 +86,7 @@ let handle (lines : string list) : unit =
     | "logger" :: "async" :: c :: _ -> is_async := true; capacity := int_of_string c
     | "logger" :: _ -> is_async := false
     | ["clock"; a; b] -> sec := int_of_string a; nsec := int_of_string b
-    | ["h"; k; lv; f] -> hss := !hss @ [{ kind = k; level = int_of_string lv; fmt = if f = "complicated" then 1 else 0 }]
+    | ["h"; k; lv; f] -> hss := !hss @ [{ kind = k; level = int_of_string lv; fmt = if f = "complicated" then 1 else if f = "raw" then 2 else 0 }]
     | ["setlevel"; i; lv] -> ops := !ops @ [`Set (int_of_string i, int_of_string lv)]
     | ["failmalloc"; k] -> ops := !ops @ [`Fail (int_of_string k)]
     | "log" :: lv :: _ -> ops := !ops @ [`Log (int_of_string lv)]
@@ -103,9 +104,9 @@ let handle (lines : string list) : unit =
   (* oracle lines of the implementation *)
   let oracle = Hashtbl.create 16 in
   List.iter (fun l -> match words l with
-    | "call" :: idx :: _lvl :: t :: s :: c :: _ ->
+    | "call" :: idx :: _lvl :: t :: s :: c :: r :: _ ->
       Hashtbl.replace oracle (int_of_string idx)
-        (bytes_of_field (after_eq t), bytes_of_field (after_eq s), bytes_of_field (after_eq c));
+        (bytes_of_field (after_eq t), bytes_of_field (after_eq s), bytes_of_field (after_eq c), bytes_of_field (after_eq r));
       if !mode = "seq" then print_endline l
     | _ -> ()) trace;
   (* attach handlers *)
@@ -150,8 +151,8 @@ let handle (lines : string list) : unit =
       | `Set (i, l) -> if i >= 0 && i < nh && pos_of.(i) >= 0 then lg := set_level !lg (nat_of_int pos_of.(i)) (z_of_int l)
       | `Fail k -> fail := k
       | `Log level ->
-        let (text, fs, fc) = try Hashtbl.find oracle !idx with Not_found -> ([], [], []) in
-        let format k (_m : lmsg) = nlist (if int_of_nat k = 0 then fs else fc) in
+        let (text, fs, fc, fr) = try Hashtbl.find oracle !idx with Not_found -> ([], [], [], []) in
+        let format k (_m : lmsg) = nlist (match int_of_nat k with 0 -> fs | 1 -> fc | _ -> fr) in
         if !is_async then begin
           (match async_log_seq format lv code_limit !fixed !lg (z_of_int level) (nat_of_int !idx) (nlist text)
                    (!fail <> 1) (!fail <> 2) with
